@@ -191,6 +191,11 @@ EXTRA = [
     "from nada_dsl import *\nBONUS = triple(Integer(2))\ndef triple(x: Integer) -> Integer:\n    return x + x + x\ndef nada_main():\n    p = Party(name='P')\n    y = BONUS\n    return []\n",
     "from nada_dsl import *\np = Party(name='P')\nvotes = [SecretInteger(Input(name='v', party=p))]\ntotal = sum(votes)\ndef sum(l: list[SecretInteger]) -> Integer:\n    return Integer(0)\n"
     "def nada_main():\n    y = total\n    z = [y]\n    return [Output(y, 'o', p)]\n",
+    # a module-level variable read in a function that assigns the same name further down (the name is local to all of the body)
+    "from nada_dsl import *\nk = 1\ndef nada_main():\n    y = k\n    k = 2\n    z = [y]\n    return []\n",
+    "from nada_dsl import *\nk = Integer(1)\ndef h(x: Integer) -> Integer:\n    y = k + x\n    for k in range(2):\n        z = k\n    return y\n"
+    "def nada_main():\n    w = h(Integer(1))\n    return []\n",
+    "from nada_dsl import *\nk = 1\ndef nada_main():\n    k = 2\n    y = k\n    z = [y]\n    return []\n",
     # the target of an inner loop is a variable that the enclosing loop's body reads
     "from nada_dsl import *\ndef nada_main():\n    p = Party(name='P')\n    j = Integer(1)\n    for i in range(2):\n        y = j\n        for j in range(1):\n            z = j\n    return []\n",
     "from nada_dsl import *\ndef nada_main():\n    p = Party(name='P')\n    a = SecretInteger(Input(name='a', party=p))\n    t = a\n    for i in range(2):\n        for k2 in range(2):\n"
